@@ -1,5 +1,194 @@
 package checks
 
-import "github.com/transparency-dev/witness/verifmc/ev"
+import (
+	"bytes"
+	"fmt"
+	"sync"
+	"sync/atomic"
 
-func uniformTable(run *ev.Run, prop string, states *int, trans *int64) {}
+	"github.com/transparency-dev/witness/verifmc/ev"
+	"github.com/transparency-dev/witness/verifmc/ref6962"
+	"github.com/transparency-dev/witness/verifmc/uni"
+	"github.com/transparency-dev/witness/verifmc/wh"
+)
+
+// uniformGrid is {2^k-1, 2^k, 2^k+1 : 0 <= k <= 62} intersected with [1, 2^62+1].
+func uniformGrid() []uint64 {
+	seen := map[uint64]bool{}
+	var g []uint64
+	for k := 0; k <= 62; k++ {
+		for _, d := range []int64{-1, 0, 1} {
+			v := uint64(int64(uint64(1)<<uint(k)) + d)
+			if v >= 1 && !seen[v] {
+				seen[v] = true
+				g = append(g, v)
+			}
+		}
+	}
+	return g
+}
+
+// uniformTable explores the power-of-two grid up to 2^62 on "uniform" trees
+// (all leaves identical, so roots and RFC 6962 proofs of any size are
+// computable exactly in O(log^2 n)): two families A and B that are
+// inconsistent with each other at every size. For prop C09 every cell is
+// compared with wmodel; for C01 accepted transitions are checked against the
+// ground truth (same family and not smaller); for C08 every honest step s -> n
+// must be accepted.
+func uniformTable(run *ev.Run, prop string, states *int, trans *int64) {
+	u := uni.New(ev.Seed(), 2, nil)
+	la := wh.LogCfg{Origin: logA(), Key: u.K1}
+	fam := map[string]*ref6962.Uniform{"A": ref6962.NewUniform([]byte("uniform-leaf-A")), "B": ref6962.NewUniform([]byte("uniform-leaf-B"))}
+	grid := uniformGrid()
+	cp := func(f string, n uint64) ([]byte, wh.Meta) {
+		r := fam[f].Root(n)
+		text := uni.Body(la.Origin, n, r[:])
+		return u.Sign(text, la.Key.Signer), wh.Meta{Origin: la.Origin, KeyName: wh.KeyID(la.Key.Verif), Size: n, Root: r[:], Text: text, Shape: "uniform-" + f}
+	}
+	proofOf := func(f string, s, n uint64) [][]byte {
+		if s == 0 || s >= n {
+			return [][]byte{}
+		}
+		return ref6962.Bytes(fam[f].Proof(s, n))
+	}
+	var nTrans atomic.Int64
+	var nStates atomic.Int64
+	ch := make(chan uint64)
+	var wg sync.WaitGroup
+	for w := 0; w < workers(); w++ {
+		wg.Add(1)
+		go func() {
+			defer wg.Done()
+			for s := range ch {
+				nStates.Add(1)
+				seedCP, seedMeta := cp("A", s)
+				mk := func() *wh.Env {
+					e := wh.NewEnv(u, wh.Config{Store: "mem", Logs: []wh.LogCfg{la}})
+					if out := e.Do(wh.Req{LogID: la.ID(), CP: seedCP, Meta: seedMeta}); out.Class != wh.OK {
+						ev.Internal("uniform table: seeding size %d failed: %v", s, out.Err)
+					}
+					return e
+				}
+				e := mk()
+				st := wh.MState{Has: true, Size: s, Root: seedMeta.Root}
+				for _, n := range grid {
+					for _, f := range []string{"A", "B"} {
+						c, meta := cp(f, n)
+						olds := []uint64{s}
+						if prop == "C09" || prop == "C01" {
+							olds = []uint64{s, s - 1, s + 1, n, 0, 1 << 63, ^uint64(0)}
+						}
+						for _, old := range olds {
+							type pv struct {
+								l string
+								p [][]byte
+							}
+							good := proofOf(f, s, n)
+							pvs := []pv{{"correct-for-submitted-family", good}}
+							if prop != "C08" {
+								pvs = append(pvs, pv{"empty", [][]byte{}})
+								if f == "B" {
+									pvs = append(pvs, pv{"correct-for-stored-family", proofOf("A", s, n)})
+								}
+								if len(good) > 0 {
+									pvs = append(pvs, pv{"drop-last", good[:len(good)-1]}, pv{"drop-first", good[1:]})
+									fl := append([][]byte{}, good...)
+									fl[len(fl)/2] = append([]byte{fl[len(fl)/2][0] ^ 1}, fl[len(fl)/2][1:]...)
+									pvs = append(pvs, pv{"flip-middle", fl})
+								}
+								if s > 1 && old != s {
+									pvs = pvs[:2]
+								}
+							} else if f == "B" || n < s {
+								continue
+							}
+							for _, v := range pvs {
+								r := wh.Req{LogID: la.ID(), Old: old, CP: c, Proof: v.p, Meta: meta, Label: fmt.Sprintf("uniform %s@%d old=%d proof=%s", f, n, old, v.l)}
+								exp := wh.Model(&la, st, r)
+								before := string(e.Stored(la.ID()))
+								out := e.Do(r)
+								after := string(e.Stored(la.ID()))
+								nTrans.Add(1)
+								got := "nil"
+								switch {
+								case out.Bytes == nil:
+								case string(out.Bytes) == before:
+									got = "stored"
+								case out.Class == wh.OK && string(out.Bytes) == after:
+									got = "new"
+								default:
+									got = "other"
+								}
+								rep := map[string]any{"kind": "uniform-cell", "stored_size": fmt.Sprint(s), "submitted_family": f, "submitted_size": fmt.Sprint(n), "old": fmt.Sprint(old), "proof": v.l}
+								cell := fmt.Sprintf("stored=2^k%+d submitted=%s old-rel=%s proof=%s", gridOffset(s), f, oldRel(old, s, n), v.l)
+								switch prop {
+								case "C09":
+									if exp.Claimed && (out.Class != exp.Class || got != exp.Ret) {
+										run.Report(fmt.Sprintf("uniform-grid verdict expected=%s/%s got=%s/%s", exp.Class, exp.Ret, out.Class, got), fmt.Sprintf("uniform tree, stored size %d, request %q: answered %s/%s (%v), model says %s/%s", s, r.Label, out.Class, got, out.Err, exp.Class, exp.Ret), rep)
+									}
+									if tv, app := tlogVerdict(s, n, v.p, st.Root, meta.Root); app && old == s && n > s {
+										rv, _ := ref6962.Verify(s, n, v.p, st.Root, meta.Root)
+										if tv != rv {
+											ev.Internal("reference verifiers disagree on the uniform grid at %d -> %d (%s)", s, n, v.l)
+										}
+										run.Add("proof_verdicts_cross_checked_with_tlog", 1)
+									}
+									run.Hist("uniform_verdicts", exp.Class)
+								case "C01":
+									if out.Class == wh.OK || after != before {
+										if f != "A" || n < s || (n == s && !bytes.Equal(meta.Root, st.Root)) {
+											run.Report("uniform-grid inconsistent-accepted "+cell, fmt.Sprintf("uniform tree, stored A@%d: request %q was accepted: split view / regression cosigned", s, r.Label), rep)
+										}
+										run.Hist("accepted_kinds", "uniform-growth-or-refresh")
+									}
+								case "C08":
+									if out.Class != wh.OK {
+										run.Report(fmt.Sprintf("uniform-grid honest-step-refused verdict=%s", out.Class), fmt.Sprintf("uniform tree: honest step %d -> %d with a correct proof was refused: %v", s, n, out.Err), rep)
+									}
+									run.Hist("probe_outcomes", out.Class)
+								}
+								if after != before {
+									e.Close()
+									e = mk()
+								}
+							}
+						}
+					}
+				}
+				e.Close()
+			}
+		}()
+	}
+	for _, s := range grid {
+		ch <- s
+	}
+	close(ch)
+	wg.Wait()
+	*states += int(nStates.Load())
+	*trans += nTrans.Load()
+	run.Set("uniform_grid_sizes", len(grid))
+	run.Set("uniform_grid_transitions", nTrans.Load())
+	run.Set("uniform_grid", "stored and submitted sizes on {2^k-1, 2^k, 2^k+1 : k <= 62} (all pairs, exact - not sampled), two mutually inconsistent uniform-leaf tree families, proofs computed exactly from perfect-subtree hashes")
+}
+
+func gridOffset(s uint64) int {
+	switch {
+	case s&(s-1) == 0:
+		return 0
+	case (s+1)&s == 0:
+		return -1
+	}
+	return 1
+}
+
+func oldRel(old, s, n uint64) string {
+	switch {
+	case old == s:
+		return "=stored"
+	case old > n:
+		return ">submitted"
+	case old < s:
+		return "<stored"
+	}
+	return ">stored"
+}
